@@ -512,7 +512,7 @@ func closeSites(c *Ctx, fns []*ssa.Function) []closeSite {
 					if e.Site != nil {
 						for _, f := range ir.WithClosures(ir.Outer(e.Caller.Func)) {
 							ir.EachCall(f, func(rc ssa.CallInstruction) {
-								if ir.CallName(rc) == "(*sync.Once).Do" {
+								if n := ir.CallName(rc); n == "(*sync.Once).Do" || strings.HasSuffix(n, ").CompareAndSwap") {
 									g = true
 								}
 							})
@@ -523,7 +523,7 @@ func closeSites(c *Ctx, fns []*ssa.Function) []closeSite {
 					}
 				}
 				if allGuarded {
-					cs.guarded = "caller runs under sync.Once"
+					cs.guarded = "every caller is once-guarded (sync.Once / CompareAndSwap)"
 				}
 			}
 			out = append(out, cs)
